@@ -42,6 +42,7 @@ type Exec struct {
 	Published []engx.Published `json:"-"`
 	Fault     string           `json:"fault,omitempty"`
 	Stuck     bool             `json:"stuck,omitempty"`
+	FinalCount int             `json:"-"` // choices left when the execution stopped
 	SetupLen  int              `json:"setup_len"`
 	SetupChoices []engx.Choice  `json:"-"`
 	MainChoices  []engx.Choice  `json:"-"`
@@ -135,6 +136,7 @@ func runDirected(sc Scenario, prefix []int, script []string, keepTrace bool) Exe
 		}
 	}
 	ex.Stuck = s.Stuck()
+	ex.FinalCount = len(s.Enabled())
 	ex.Fault = s.Fault
 	ex.Responses = s.Responses()
 	ex.Disk = append([]*ledger.ChainedLog{}, disk.Logs...)
@@ -840,8 +842,8 @@ func coqCase(sc Scenario, ex Exec) string {
 		events = append(events, fmt.Sprintf("(%d, %s, %s, %s)", 100+p.Tid, kind, tx, rv))
 	}
 	j := func(xs []string) string { return "[" + strings.Join(xs, ";\n      ") + "]" }
-	return fmt.Sprintf("{| ec_setup := %s;\n   ec_reqs := %s;\n   ec_allow_fail := %v; ec_allow_crash := %v; ec_max_crashes := 1;\n   ec_allow_cancel := %v; ec_max_cancels := 1;\n   ec_steps := %s;\n   ec_disk := %s;\n   ec_resps := %s;\n   ec_events := %s |}",
-		j(setup), j(reqs), sc.Fail, sc.Crash, sc.Cancel, j(steps), j(disk), j(resps), j(events))
+	return fmt.Sprintf("{| ec_setup := %s;\n   ec_reqs := %s;\n   ec_allow_fail := %v; ec_allow_crash := %v; ec_max_crashes := 1;\n   ec_allow_cancel := %v; ec_max_cancels := 1;\n   ec_steps := %s;\n   ec_final_choices := %d;\n   ec_disk := %s;\n   ec_resps := %s;\n   ec_events := %s |}",
+		j(setup), j(reqs), sc.Fail, sc.Crash, sc.Cancel, j(steps), ex.FinalCount, j(disk), j(resps), j(events))
 }
 
 func (n *names) ledgerPostings(ps ledger.Postings) string {
